@@ -225,7 +225,9 @@ def check_file_against_history(rec, case, path, names, history, cols, K, step):
             rec.fail('A.no-finite-evaluation=>no-file', c, 'absent', [status, val])
         return None
     if status == 'absent':
-        rec.fail('A.file-exists-after-finite-evaluation', c, 'a file', 'absent')
+        # a point of value -inf (exp overflow) with a finite derivative need not be kept as a restart point
+        if any(math.isfinite(oracle_ll(cols, K, x)) for x in cands):
+            rec.fail('A.file-exists-after-finite-evaluation', c, 'a file', 'absent')
         return None
     if status == 'bad':
         rec.fail('A.one-complete-line-per-free-parameter', c, f'{K} lines "name = value"', val)
